@@ -20,6 +20,7 @@ func init() {
 			ruleFlagAfterClose(r)
 			ruleDeleteAfterFlag(r)
 			ruleTorn(r)
+			ruleShortFileIsTruncation(r)
 			rulePartialTable(r)
 			ruleNames(r, []string{"sstable-format", "wal-format", "sorted-recovery", "sorted-replay"})
 			ruleFlushErrflow(r)
@@ -50,6 +51,7 @@ func init() {
 		durAssume, func(r *Report) {
 			ruleWriteFlushFsync(r)
 			ruleTornRecordIsNotEOF(r)
+			ruleShortFileIsTruncation(r)
 			ruleNoMergeDecode(r)
 			ruleStickyWriteError(r)
 			ruleSyncFailureRollsBack(r)
@@ -73,6 +75,7 @@ func init() {
 			ruleReplayCountsEveryMutation(r)
 			ruleDeleteAfterFlag(r)
 			ruleTorn(r)
+			ruleShortFileIsTruncation(r)
 			rulePartialTable(r)
 			ruleNames(r, []string{"sorted-recovery", "sorted-replay"})
 			ruleFinishOnlyVerified(r)
@@ -100,8 +103,10 @@ func init() {
 			ruleFreshWalDir(r)
 			ruleWalReclaim(r)
 			ruleTornRecordIsNotEOF(r)
+			ruleShortFileIsTruncation(r)
 			ruleReplayCountsEveryMutation(r)
 			ruleReplayClosesPerFile(r)
+			ruleStagingNameRecognised(r)
 		})
 }
 
